@@ -8,6 +8,7 @@
 #include <algorithm>
 #include <cmath>
 #include <cstdio>
+#include <cstring>
 #include <iostream>
 #include <sstream>
 
@@ -1339,6 +1340,18 @@ void World::doReload(const Step &st, StepRecord &rec) {
     bool enabled = api ? (on(ORC_C01) || on(ORC_C17)) : on(ORC_C04);
     if (sv.premise_broken || !sv.complete) { enabled = false; probe("reload.premise-broken-or-incomplete"); }
     if (!ok) {
+        // The budgets armed around every load belong to C16. When the data reader was stopped although it stayed within the
+        // counts the file claims, and those are exactly the counts of the object that was saved (e.g. thousands of empty
+        // sub-frames per frame: memory without bytes in the file), the simulator's limit was hit, not a property.
+        const BudgetState &bs = budget_state();
+        if ((rec.exc == "budget_heap" || rec.exc == "budget_read") && bs.in_data && std::strstr(bs.kind, "beyond") == nullptr) {
+            uint64_t values = 0, objects = 0;
+            for (const SnapFrame &fr : sv.snap.frames) {
+                values += 4 * fr.pts.size(); objects += 2 + fr.pts.size();
+                for (const auto &sub : fr.subs) { values += sub.size(); objects += 1 + sub.size(); }
+            }
+            if (values == bs.claimed_values && objects == bs.claimed_objects) { probe("reload.stopped-by-simulator-budget"); return; }
+        }
         if (enabled) violate(prop, "reload-failed/" + rec.exc, "a file the library saved does not load back: " + rec.exc + " (" + what + ")");
         return;
     }
